@@ -8,8 +8,10 @@ pub mod c06;
 pub mod c07;
 pub mod c08;
 pub mod c11;
+pub mod c12;
 pub mod c13;
 pub mod c15;
+pub mod c16;
 pub mod c18;
 pub mod c19;
 pub mod sm2util;
@@ -25,8 +27,10 @@ pub const ALL: &[(&str, fn(&Ctx))] = &[
     ("C07", c07::run),
     ("C08", c08::run),
     ("C11", c11::run),
+    ("C12", c12::run),
     ("C13", c13::run),
     ("C15", c15::run),
+    ("C16", c16::run),
     ("C18", c18::run),
     ("C19", c19::run),
 ];
